@@ -76,6 +76,14 @@ def fresh_diag(case, out, T_ids, C_ids):
   return d, par, x, y
 
 
+def fdiv(a, b):
+  """IEEE division (what numpy float64 does): x/0 = +-inf, 0/0 = nan, never an exception."""
+  a, b = float(a), float(b)
+  if b == 0.0:
+    return float('nan') if (a == 0.0 or a != a) else (float('inf') if a > 0 else float('-inf'))
+  return a / b
+
+
 def c02_within(case, out, res, which):
   fails, skipped = [], 0
   par = case['par_final']
@@ -98,7 +106,7 @@ def c02_within(case, out, res, which):
         fails.append('design %d: geo ratio %d/%d outside [1/(1+%s), 1+%s]' % (k, nc, nt, tol, tol))
     tol = par.get('volume_ratio_tolerance')
     if tol is not None:
-      q = sum(sh[g] for g in C) / sum(sh[g] for g in T)
+      q = fdiv(sum(sh[g] for g in C), sum(sh[g] for g in T))
       lo, hi = 1 / (1 + tol), 1 + tol
       if near(q, lo) or near(q, hi):
         skipped += 1
@@ -107,7 +115,7 @@ def c02_within(case, out, res, which):
     r = par.get('treatment_share_range')
     if r:
       s_all = sum(sh[g] for g in T)
-      s_adm = s_all / tot_adm
+      s_adm = fdiv(s_all, tot_adm)
       if any(near(s, b) for s in (s_all, s_adm) for b in r):
         skipped += 1
       elif not (r[0] <= s_all <= r[1] or r[0] <= s_adm <= r[1]):
@@ -116,7 +124,7 @@ def c02_within(case, out, res, which):
     r = par.get('budget_range')
     if r:
       dg, _, _, _ = fresh_diag(case, out, T, C)
-      b = float(dg.required_impact) / par['iroas']
+      b = fdiv(dg.required_impact, par['iroas'])
       if near(b, r[0]) or near(b, r[1]):
         skipped += 1
       elif not (r[0] <= b <= r[1]):
@@ -175,7 +183,7 @@ def feasible_space(case, out, reading):
         continue
       sT = sum(sh[gi[i]] for i in T)
       if vt is not None:
-        q = sum(sh[gi[i]] for i in C) / sT
+        q = fdiv(sum(sh[gi[i]] for i in C), sT)
         if near(q, 1 / (1 + vt)) or near(q, 1 + vt):
           skipped += 1
         if not (1 / (1 + vt) <= q <= 1 + vt):
@@ -190,7 +198,7 @@ def feasible_space(case, out, reading):
         skipped += 1
         continue
       if br:
-        b = e[0] / par['iroas']
+        b = fdiv(e[0], par['iroas'])
         if near(b, br[0]) or near(b, br[1]):
           skipped += 1
         if not (br[0] <= b <= br[1]):
@@ -254,7 +262,7 @@ def c03_optimal(case, out, res):
 
   def opt_budget(tm):
     v = out['optB'][tm]
-    return None if isinstance(v, str) else v / par['iroas']
+    return None if isinstance(v, str) else fdiv(v, par['iroas'])
 
   def prunable(tm):
     if not br:
@@ -341,7 +349,7 @@ def c04_diag(case, out, res, which):
       fails.append('design %d: test outcomes %s, recomputed %s' % (k, rd['tests'], tests))
     s = tbrmmscore.TBRMMScore(dg).score
     if which == 'exhaustive' and br:
-      s = s._replace(inv_required_impact=1 / (dg.required_impact / br[1]))
+      s = s._replace(inv_required_impact=fdiv(1.0, fdiv(dg.required_impact, br[1])))
     want = [float(v) for v in s]
     if not all(same(a, b) for a, b in zip(d['score'], want)):
       fails.append('design %d: score %s, recomputed %s' % (k, d['score'], want))
